@@ -256,7 +256,7 @@ pub fn c14_profile() -> Profile {
         duplicate: 0,
         retry_after: 250,
     };
-    p.disk = DiskRates { fail_set: 60, fail_remove: 60, fail_commit: 60, slow: 0, commit_fail_drops_pending: true, hostile_init: 700 };
+    p.disk = DiskRates { fail_set: 60, fail_remove: 60, fail_commit: 60, slow: 0, commit_fail_drops_pending: true, hostile_init: 700, fail_keys: vec![] };
     p.bad_url_permille = 80;
     p.url_variants = true;
     p.clock_jump_permille = 600;
@@ -276,7 +276,7 @@ fn c14_batches(tier: &str) -> Vec<Batch> {
     d.name = "c14-diskdiff".into();
     d.max_lifetimes = 1;
     d.crash_permille = 0;
-    d.disk = DiskRates { fail_set: 150, fail_remove: 150, fail_commit: 150, slow: 0, commit_fail_drops_pending: true, hostile_init: 200 };
+    d.disk = DiskRates { fail_set: 150, fail_remove: 150, fail_commit: 150, slow: 0, commit_fail_drops_pending: true, hostile_init: 200, fail_keys: vec![] };
     d.clock_jump_permille = 100;
     d.wall_init = [1, 0, 0, 0];
     d.net.none = 700;
@@ -356,8 +356,11 @@ pub fn c18_profile() -> Profile {
     p.policy.reboot_needed_permille = 800;
     p.policy.reboot_allowed_permille = 600;
     p.reboot_version = [3, 1];
-    // wall-clock jumps only between lifetimes (across the reboot)
-    p.clock_jump_permille = 0;
+    // wall-clock jumps between lifetimes (across the reboot) and, since the third seed wave,
+    // while running: a machine that starts with the wall clock behind the recorded finish time
+    // must retry its waited-for-reboot report once the clock has been stepped forward
+    p.clock_jump_permille = 300;
+    p.clock_classes = [2, 2, 0, 1, 0];
     p.next_delays_s = vec![0, 1, 60, 3600];
     p.latency = [3, 5, 2];
     // slow storage: time passes between a machine's start and its report
@@ -369,7 +372,28 @@ fn c18_batches(tier: &str) -> Vec<Batch> {
     let mut e = c18_profile();
     e.name = "c18-crashenum".into();
     e.crash_horizon = CRASH_K;
+    // a device that boots with its wall clock behind (stepped back across the reboot) and gets
+    // its time later: the waited-for-reboot report must be retried on a later trip
+    let mut r = c18_profile();
+    r.name = "c18-clockstep".into();
+    r.clock_jump_permille = 1000;
+    r.clock_classes = [3, 2, 0, 0, 0];
+    r.policy.reboot_allowed_permille = 900;
+    r.installer.reboot = [90, 5, 5];
+    r.reboot_version = [9, 1];
+    r.max_checks = 4;
+    // a partial storage fault: the first-seen time cannot be written (plan id rollback)
+    let mut f = c18_profile();
+    f.name = "c18-fsfault".into();
+    f.disk.fail_set = 350;
+    f.disk.fail_keys = vec!["update_first_seen_time".to_string()];
+    f.crash_permille = 0;
+    f.installer.plan_id_fresh_permille = 500;
+    f.installer.app_result = [40, 10, 50];
+    f.max_checks = 5;
     vec![
+        Batch { name: "c18-fsfault".into(), profile: f, runs: scale(tier, 5_000, 120_000), exec: exec_c18, strata: None },
+        Batch { name: "c18-clockstep".into(), profile: r, runs: scale(tier, 6_000, 150_000), exec: exec_c18, strata: None },
         Batch { name: "c18-main".into(), profile: c18_profile(), runs: scale(tier, 15_000, 400_000), exec: exec_c18, strata: None },
         Batch { name: "c18-crashenum".into(), profile: e, runs: scale(tier, 15 * CRASH_K, 800 * CRASH_K), exec: exec_c18, strata: Some(crash_enum) },
     ]
@@ -395,6 +419,10 @@ fn c19_batches(tier: &str) -> Vec<Batch> {
     let mut a = c08_profile();
     a.name = "c19-context".into();
     a.wall_init = [2, 4, 1, 4];
+    // steps into and out of the unrepresentable range while running: a stored ordinary time
+    // followed by one that does not fit (and the converse)
+    a.clock_jump_permille = 450;
+    a.clock_classes = [2, 3, 1, 1, 2];
     a.disk.hostile_init = 500;
     a.net.none = 600;
     a.net.transport = 150;
@@ -402,6 +430,8 @@ fn c19_batches(tier: &str) -> Vec<Batch> {
     let mut b = c18_profile();
     b.name = "c19-install".into();
     b.wall_init = [1, 4, 0, 4];
+    b.clock_jump_permille = 400;
+    b.clock_classes = [2, 2, 1, 1, 2];
     b.crash_permille = 150;
     vec![
         Batch { name: "c19-context".into(), profile: a, runs: scale(tier, 12_000, 300_000), exec: exec_c19_ctx, strata: None },
@@ -760,7 +790,15 @@ fn c07_batches(tier: &str) -> Vec<Batch> {
     let mut on = c07_profile();
     on.name = "c07-cup".into();
     on.cup_permille = 1000;
+    // a partial storage fault: writes and removals of one neighbouring key fail; the interval must
+    // still reach storage and survive the restart
+    let mut pf = c07_profile();
+    pf.name = "c07-partialfault".into();
+    pf.disk.fail_set = 300;
+    pf.disk.fail_remove = 300;
+    pf.disk.fail_keys = vec!["last_update_time".to_string()];
     vec![
+        Batch { name: "c07-partialfault".into(), profile: pf, runs: scale(tier, 5_000, 100_000), exec: exec_c07, strata: None },
         Batch { name: "c07-nocup".into(), profile: off, runs: scale(tier, 10_000, 200_000), exec: exec_c07, strata: None },
         Batch { name: "c07-cup".into(), profile: on, runs: scale(tier, 6_000, 150_000), exec: exec_c07, strata: None },
     ]
